@@ -10,10 +10,13 @@
 // binds every abstract identifier, the first time it appears, to a concrete
 // string drawn from the rng whose REAL decision equals the fate the model
 // will consult for it (look-ahead in the behaviour, then rejection sampling
-// by probing the very sampler under test with throw-away ok-records).  From
-// then on the spec's exp is a deterministic prediction: every later record
-// with the same key must share that fate, errors are kept, kept non-error
-// records carry sample_rate = rate.
+// on VIRGIN instances of the real sampler / hook at the same rate: one lone
+// ok-record each).  The instances under test receive the behaviour's records
+// and nothing else, so histories (errors before ok-records of the same id,
+// other ids in between, repeated ids) reach them exactly as TLC ordered them.
+// The spec's exp is a deterministic prediction: every non-error record of a
+// key shares the key's fate wherever it stands in the history, errors are
+// kept, kept non-error records carry sample_rate = rate.
 //
 // Records with no identifier get a fresh fallback key inside the sampler; the
 // driver cannot steer its fate, TLC generates both branches, and the branch
@@ -148,7 +151,11 @@ func (s *stepper) drawID(stream bool) string {
 
 // hookRecord sends one dispatch through the real hook and returns the lines written.
 func (s *stepper) hookRecord(stream bool, sid, rid, status string) []map[string]any {
-	s.buf.Reset()
+	return s.hookRecordOn(s.hook, &s.buf, stream, sid, rid, status)
+}
+
+func (s *stepper) hookRecordOn(hook *vgirpc.AccessLogHook, buf *bytes.Buffer, stream bool, sid, rid, status string) []map[string]any {
+	buf.Reset()
 	info := vgirpc.DispatchInfo{
 		Method:       s.method,
 		MethodType:   vgirpc.DispatchMethodUnary,
@@ -171,7 +178,7 @@ func (s *stepper) hookRecord(stream bool, sid, rid, status string) []map[string]
 		}
 	}
 	ctx := context.Background()
-	ctx2, tok := s.hook.OnDispatchStart(ctx, info)
+	ctx2, tok := hook.OnDispatchStart(ctx, info)
 	if ctx2 != nil {
 		ctx = ctx2
 	}
@@ -179,9 +186,9 @@ func (s *stepper) hookRecord(stream bool, sid, rid, status string) []map[string]
 	if s.rng.Intn(2) == 0 {
 		stats = &vgirpc.CallStatistics{InputBatches: 1, InputRows: 1, InputBytes: 8}
 	}
-	s.hook.OnDispatchEnd(ctx, tok, info, stats, err)
+	hook.OnDispatchEnd(ctx, tok, info, stats, err)
 	var out []map[string]any
-	for _, ln := range bytes.Split(s.buf.Bytes(), []byte("\n")) {
+	for _, ln := range bytes.Split(buf.Bytes(), []byte("\n")) {
 		if len(ln) == 0 {
 			continue
 		}
@@ -191,7 +198,7 @@ func (s *stepper) hookRecord(stream bool, sid, rid, status string) []map[string]
 		}
 		out = append(out, m)
 	}
-	s.buf.Reset()
+	buf.Reset()
 	return out
 }
 
@@ -209,8 +216,42 @@ func (s *stepper) desiredFate(from int, id string) string {
 	return ""
 }
 
-// bind returns the concrete identifier of abstract id, choosing one with the
-// required real fate on first use.
+// virginFate is the hash fate of concrete identifier c at the configured rate:
+// the decision a sampler that has never seen a record takes on a lone ok-record
+// keyed by c -- once through a fresh accessLogSampler, once through a fresh
+// AccessLogHook.  The instances under test are never probed: they see exactly
+// the records of the behaviour, in the behaviour's order, so a decision that
+// depends on earlier records (of this or of other ids) is not masked by probe
+// records slipped in between.
+func (s *stepper) virginFate(c string, stream bool) (direct, hook bool, err error) {
+	d, derr := vgirpc.VerifNewAccessLogSampler(s.rate)
+	if derr != nil {
+		return false, false, fmt.Errorf("probe sampler: %v", derr)
+	}
+	rec := map[string]any{"status": "ok", "method": s.method}
+	if stream {
+		rec["stream_id"] = c
+	} else {
+		rec["request_id"] = c
+	}
+	direct = d.Keep(rec)
+	var pbuf bytes.Buffer
+	ph := vgirpc.NewAccessLogHook(&pbuf, "")
+	if herr := ph.SetSampleRate(s.rate); herr != nil {
+		return false, false, fmt.Errorf("probe hook: %v", herr)
+	}
+	defer ph.Close()
+	var lines []map[string]any
+	if stream {
+		lines = s.hookRecordOn(ph, &pbuf, true, c, "", "ok")
+	} else {
+		lines = s.hookRecordOn(ph, &pbuf, false, "", c, "ok")
+	}
+	return direct, len(lines) > 0, nil
+}
+
+// bind returns the concrete identifier of abstract id, choosing one whose
+// virgin fate is the one the model will consult for it.
 func (s *stepper) bind(step int, id string, stream bool) (string, error) {
 	if c, ok := s.ids[id]; ok {
 		return c, nil
@@ -223,20 +264,10 @@ func (s *stepper) bind(step int, id string, stream bool) (string, error) {
 			return c, nil
 		}
 		s.probes++
-		rec := map[string]any{"status": "ok", "method": s.method}
-		if stream {
-			rec["stream_id"] = c
-		} else {
-			rec["request_id"] = c
+		dk, hk, err := s.virginFate(c, stream)
+		if err != nil {
+			return "", err
 		}
-		dk := s.direct.Keep(rec)
-		var lines []map[string]any
-		if stream {
-			lines = s.hookRecord(true, c, "", "ok")
-		} else {
-			lines = s.hookRecord(false, "", c, "ok")
-		}
-		hk := len(lines) > 0
 		if dk == (want == "keep") && hk == (want == "keep") {
 			s.ids[id] = c
 			return c, nil
